@@ -271,8 +271,8 @@ func init() {
 	}, propMeta{Technique: "call-graph reachability from the lookup used by the overload test", LevelText: "both overload sites are enumerated and decided.", LevelNote: "overload sites resolved by role: stores to the Overloads field in package builtin", DesignRef: "4 ORD-overload; 5 C19"})
 
 	claim("C20", PropertySpec{
-		Engines: []EngineSpec{rules("ORD", "ORD-flat")},
-		Clause: "The registry consulted to decide 'is this a Builtin-frame class' must not erase the frame: its entries carry the frame or are restricted by a frame test.",
+		Engines: []EngineSpec{rules("ORD", "ORD-flat", "ORD-flat-use")},
+		Clause: "The registry consulted to decide 'is this a Builtin-frame class' must not erase the frame: its entries carry the frame or are restricted by a frame test; and every consumer that redirects a class to the Builtin frame because its short name is registered also tests that the name was written unqualified (frame/namespace empty).",
 		NotCovered: "other ways an unmentioned class could matter (inheritance edges of same-named classes)",
 	}, propMeta{Technique: "dependence rule on the registry append over go/ssa", LevelText: "the single registration site is decided.", LevelNote: "registry anchored by name (BuiltinClasses)", DesignRef: "4 ORD-flat; 5 C20"})
 
